@@ -394,6 +394,20 @@ def check_equality_is_structural(tier):
             if same and hash(a) != hash(b):
                 problems.append(f"equality: equal trees {shapes[i]!r} hash differently")
                 return problems, n
+    # leaves: terminals of different kinds with the same content are different symbols
+    from fandango.language.symbols.non_terminal import NonTerminal
+    from fandango.language.symbols.terminal import Terminal
+    from fandango.language.tree import DerivationTree
+    leaf_values = ["a", b"a", "b", b"b", 1, 0, "1", b"1", b"\x01", "", b""]
+    leaf_trees = [DerivationTree(NonTerminal("<s>"), [DerivationTree(Terminal(v))]) for v in leaf_values]
+    for i, a in enumerate(leaf_trees):
+        for j in range(i, len(leaf_trees)):
+            n += 1
+            same = (type(leaf_values[i]), leaf_values[i]) == (type(leaf_values[j]), leaf_values[j])
+            eq = (a == leaf_trees[j])
+            if eq != same:
+                problems.append(f"equality: a tree with the leaf {leaf_values[i]!r} and a tree with the leaf {leaf_values[j]!r} compare {'equal' if eq else 'unequal'}")
+                return problems, n
     return problems, n
 
 
